@@ -171,6 +171,25 @@ def add_ring(design, k):
   return d
 
 
+def add_false_loops(design, n):
+  """adds n legal false combinational loops to Top (two blocks that read each other's signal, acyclic at bit level):
+  cyclic groups that carry values and have to be scheduled next to the signal-free ring"""
+  import copy
+  d = copy.deepcopy(design)
+  top = d["classes"]["Top"]
+  R = lambda sig, sl=None: {"inst": "", "sig": sig, "fld": [], "sl": sl}
+  ins = [(n_, t) for n_, dr, t in top["ports"] if dr == "in" and t[0] == "b" and t[1] >= 4 and "." not in n_ and "[" not in n_]
+  for i in range(n):
+    fx, fy = f"flx{i}", f"fly{i}"
+    top["wires"] += [[fx, ["b", 8]], [fy, ["b", 8]]]
+    src = ["sig", R(ins[i % len(ins)][0], [0, 4])] if ins else ["const", 4, 5 + i]
+    top["blocks"].append({"name": f"fla{i}", "kind": "comb", "stmts": [["assign", R(fx, [0, 4]), src],
+                                                                        ["assign", R(fx, [4, 8]), ["sig", R(fy, [0, 4])]]]})
+    top["blocks"].append({"name": f"flb{i}", "kind": "comb", "stmts": [["assign", R(fy, [0, 4]), ["inv", ["sig", R(fx, [0, 4])]]],
+                                                                        ["assign", R(fy, [4, 8]), ["const", 4, i]]]})
+  return d
+
+
 def check_ring(design, which, rseed):
   s = rtl_sim.Sim(design)
   try:
@@ -192,6 +211,10 @@ def judge(case):
   design = case["design"]
   if case.get("ring"):
     d2 = add_ring(design, case["ring"])
+    if case.get("ring_loops"):
+      # the passes that iterate cyclic groups (default, mamba) must still refuse the signal-free ring when the design
+      # also holds legal value-carrying (false) loops, whichever group they meet first; the others reject any cycle
+      d2 = add_false_loops(d2, case["ring_loops"])
     for i, p in enumerate(rtl_sim.PASSES):
       v = check_ring(d2, p, case["seeds"][i % 3])
       if v is not None: return v
@@ -217,7 +240,7 @@ def cases(draw):
   seq = draw(rtl_gen.input_seqs(design, ncycles=2))
   seeds = draw(st.lists(st.integers(0, 2 ** 20), min_size=3, max_size=3))
   ring = draw(st.sampled_from([0, 0, 0, 0, 2, 3, 4]))
-  return {"design": design, "seq": seq, "seeds": seeds, "ring": ring}
+  return {"design": design, "seq": seq, "seeds": seeds, "ring": ring, "ring_loops": draw(st.sampled_from([0, 0, 1, 2, 3])) if ring else 0}
 
 
 def run_shard(ctx):
@@ -231,6 +254,7 @@ def run_shard(ctx):
     v = judge(case)
     if case["ring"]:
       ctx.label(f"constraint_ring_{case['ring']}")
+      if case.get("ring_loops"): ctx.label("constraint_ring_next_to_false_loops")
       if v is None: ctx.nontriv(["ring", case["ring"], case["design"]])
     else:
       m, blocks, deps, uu = analyse(case["design"])
